@@ -45,15 +45,15 @@ pub fn random_aff(rng: &mut Rng, small_scales: bool) -> Aff {
     // the features are large against the unit in the last place (the margin of admissible witnesses, 2^-29 / 2^-15 of
     // the coordinate magnitude, is then a quarter / an eighth of a cell)
     if rng.chance(1, 4) {
-        let e = if small_scales { rng.range(-6, 6) } else { rng.range(-40, 40) };
+        let e = if small_scales { rng.range(-30, 30) } else { rng.range(-80, 80) };
         let s = 2f64.powi(e as i32) * (1.0 + 0.5 * unit(rng).abs());
         let th = unit(rng) * std::f64::consts::PI;
-        let k = if small_scales { rng.range(8, 11) } else { rng.range(20, 26) };
+        let k = if small_scales { rng.range(8, 12) } else { rng.range(20, 26) };
         let t = 2f64.powi(k as i32) * s;
         return Aff { a: s * th.cos(), b: -s * th.sin(), c: s * th.sin(), d: s * th.cos(), tx: t * (0.5 + 0.5 * unit(rng).abs()) * if rng.chance(1, 2) { 1.0 } else { -1.0 }, ty: t * unit(rng) };
     }
     loop {
-        let e = if small_scales { rng.range(-6, 6) } else { rng.range(-40, 40) };
+        let e = if small_scales { rng.range(-30, 30) } else { rng.range(-80, 80) };
         let s = 2f64.powi(e as i32) * (1.0 + 0.5 * unit(rng).abs());
         let (a, b, c, d) = match rng.below(3) {
             0 => {
@@ -69,7 +69,10 @@ pub fn random_aff(rng: &mut Rng, small_scales: bool) -> Aff {
             }
             _ => (unit(rng), unit(rng), unit(rng), unit(rng)),
         };
-        let m = Aff { a: a * s, b: b * s, c: c * s, d: d * s, tx: unit(rng) * s * if small_scales { 8.0 } else { 64.0 }, ty: unit(rng) * s * if small_scales { 8.0 } else { 64.0 } };
+        // one placement in three keeps the ORIGIN inside or right next to the data (translations of a few cells): coordinates
+        // of both signs, end points much closer to an axis than their neighbours (x + (y - x) != y there), zeros nearby
+        let span = if rng.chance(1, 3) { 5.0 } else if small_scales { 8.0 } else { 64.0 };
+        let m = Aff { a: a * s, b: b * s, c: c * s, d: d * s, tx: unit(rng) * s * span, ty: unit(rng) * s * span };
         let n = (a * a + b * b + c * c + d * d).max(1e-300);
         if (a * d - b * c).abs() / n > 0.15 {
             return m;
@@ -321,7 +324,7 @@ fn star_session<F: Fl>(sid: u64, fam: &str, seed: u64, kind: &str) -> Sess {
 /// of one is near an edge of the other. Witness candidates lie along the common axis. (A FIXED batch.)
 fn needle_session<F: Fl>(sid: u64, fam: &str, seed: u64, kind: &str) -> Sess {
     let mut rng = Rng::new(seed);
-    let e = if F::NAME == "f32" { rng.range(7, 10) } else { rng.range(7, 13) };
+    let e = rng.range(7, 13);
     let len = 2f64.powi(e as i32) * (1.0 + 0.9 * unit(&mut rng).abs());
     let th = unit(&mut rng) * std::f64::consts::PI;
     let spread = 2.0 + 4.0 * unit(&mut rng).abs(); // how far the ends separate, in widths
@@ -421,6 +424,13 @@ fn session<F: Fl>(sid: u64, fam: &str, seed: u64, o: &Opts, shape: &str, kind: &
             } else {
                 let op = *rng.pick(&["int", "union", "xor"]);
                 fs.call(op, "B", "A", 'm', 'm');
+            }
+            // self-operations: every edge is shared bit for bit by subject and clipping
+            if rng.chance(1, 2) {
+                let who = *rng.pick(&["A", "B"]);
+                for (op, _) in run::OPS {
+                    fs.call(op, who, who, 'm', 'm');
+                }
             }
         }
     }
